@@ -26,7 +26,11 @@ def classify(v, open_findings):
         if pred is None:
             continue
         try:
-            if pred(v):
+            try:
+                hit = pred(v, f)
+            except TypeError:
+                hit = pred(v)
+            if hit:
                 return f["id"]
         except Exception:
             continue
@@ -60,3 +64,26 @@ def _pickle_names(v):
     built in the receiving process is merged with it by name (wrong operand, cycle, or assertion)."""
     f = v.get("facts", {})
     return v.get("kind") in ("combination-fails", "wrong-value") and bool(f.get("name_collision")) and f.get("how") != "alone"
+
+
+@predicate("mem_over_projection")
+def _mem(v, finding=None):
+    """C03 under-projections of the memory model, keyed by mechanism: configuration (compressor on/off),
+    producing function, the kind of segment in which the peak occurred, and a ceiling on the ratio
+    peak/projected (a larger excess than ever observed for this mechanism is a different violation)."""
+    f = v.get("facts", {})
+    p = (finding or {}).get("params", {})
+    if v.get("kind") != "task-over-projection":
+        return False
+    comp = f.get("compressor") is not None
+    if p.get("compressor") == "on" and not comp:
+        return False
+    if p.get("compressor") == "off" and comp:
+        return False
+    if "func_names" in p and f.get("func_name") not in p["func_names"]:
+        return False
+    if "segments" in p and f.get("peak_segment_kind") not in p["segments"]:
+        return False
+    if p.get("min_reads") and f.get("n_reads", 0) < p["min_reads"]:
+        return False
+    return f.get("ratio", 99) <= p.get("ceiling", 0)
